@@ -17,15 +17,14 @@ Qed.
 Lemma wf_arr_raw v : wf_value true v = true -> is_class SArr v = true -> array_raw (stored v) = norm v.
 Proof.
   intros Hw Hc. apply is_class_sclass in Hc. destruct v; cbn in Hc; try discriminate.
-  cbn [stored norm]. apply array_raw_stored. exact Hw.
+  - cbn [stored norm]. apply array_raw_stored. exact Hw.
+  - reflexivity.
 Qed.
 
 Lemma wf_true_false v : wf_value true v = true -> wf_value false v = true.
 Proof.
   destruct v as [| | | | | | | |k tys meta h| |bg s| | | | | |]; cbn [wf_value]; try (intros H; exact H).
-  - intros H. apply andb_true_iff in H. destruct H as [H1 H2]. rewrite H1. destruct k; reflexivity.
-  - intros H. discriminate.
-  - intros H. discriminate.
+  intros H. apply andb_true_iff in H. destruct H as [H1 H2]. rewrite H1. destruct k; reflexivity.
 Qed.
 
 (* ------------------------------------------------------------------ type check after a container / blob / logger *)
@@ -126,7 +125,7 @@ Proof.
   - (* rng *)
     split.
     + intros Hw _ sn st. reflexivity.
-    + intros Hw _. cbn in Hw. discriminate.
+    + intros Hw _. reflexivity.
   - (* list *)
     apply (P_seq "list" l); try reflexivity; [apply subg_list | discriminate | exact H].
   - (* tuple *)
